@@ -57,13 +57,20 @@ def main():
                 r = sh(f"python3 {VERIF}/vcheck.py {p} --tier {tier}")
                 verdict = {0: "silent", 1: "VIOLATION", 2: "inconclusive"}.get(r.returncode, str(r.returncode))
                 detail = ""
+                entry = {"verdict": verdict, "wall_s": round(time.time() - t0, 1)}
                 if r.returncode == 1:
                     lines = [l for l in r.stdout.splitlines() if l.startswith("  ")]
                     detail = lines[0].strip()[:200] if lines else ""
-                res[p] = {"verdict": verdict, "wall_s": round(time.time() - t0, 1), "detail": detail}
+                    vl = [l for l in r.stdout.splitlines() if l.startswith("VIOLATION ")]
+                    if vl and "replay=" in vl[-1] and "--no-replay" not in sys.argv:
+                        rp = vl[-1].split("replay=")[1].strip()
+                        rr = sh(f"python3 {VERIF}/vcheck.py {p} --replay {rp}")
+                        entry["replay_reproduces_on_changed_tree"] = rr.returncode == 1
+                entry["detail"] = detail
+                res[p] = entry
             results[sid] = {"property": meta["property"], "suite_passes": suite.returncode == 0, "tier": tier, "checks": res}
             caught = [p for p, v in res.items() if v["verdict"] == "VIOLATION"]
-            print(f"{sid}: suite={'pass' if suite.returncode == 0 else 'FAIL'} caught_by={caught or 'NONE'} " + " ".join(f"{p}:{v['verdict']}({v['wall_s']}s)" for p, v in res.items()), flush=True)
+            print(f"{sid}: suite={'pass' if suite.returncode == 0 else 'FAIL'} caught_by={caught or 'NONE'} " + " ".join(f"{p}:{v['verdict']}({v['wall_s']}s{'' if 'replay_reproduces_on_changed_tree' not in v else ',replay=' + ('ok' if v['replay_reproduces_on_changed_tree'] else 'NO')})" for p, v in res.items()), flush=True)
         finally:
             restore()
     json.dump(results, open(resp, "w"), indent=1, sort_keys=True)
